@@ -12,6 +12,14 @@ Definition same_names (h h' : heap) : Prop :=
 
 Definition same_kinds (h h' : heap) : Prop := forall s, s_kind (hget h' s) = s_kind (hget h s).
 
+(* import-ness and unresolved-ness of every symbol are the same in both heaps *)
+Definition same_ifc (h h' : heap) : Prop :=
+  forall s, is_import (hget h' s) = is_import (hget h s) /\ is_unres (hget h' s) = is_unres (hget h s).
+
+Lemma same_ifc_refl : forall h, same_ifc h h. Proof. intros h s; split; reflexivity. Qed.
+Lemma same_ifc_trans : forall a b c, same_ifc a b -> same_ifc b c -> same_ifc a c.
+Proof. intros a b c H1 H2 s. destruct (H1 s), (H2 s). split; congruence. Qed.
+
 Lemma hget_hset_cases : forall h s v s',
     hget (hset h s v) s' = if Nat.eqb s s' then (if Nat.ltb s (List.length h) then v else hget h s') else hget h s'.
 Proof.
@@ -75,6 +83,47 @@ Proof.
     + eapply same_names_trans; [eapply check_one_names; eauto | eapply IH; eauto].
 Qed.
 
+Lemma specialise_iface : forall h s h', specialise_intrinsic h s = inl h' -> forall x, s_iface (hget h' x) = s_iface (hget h x).
+Proof.
+  intros h s h' H. unfold specialise_intrinsic in H.
+  destruct (s_kind (hget h s)); inversion H; subst; apply hset_field; reflexivity.
+Qed.
+
+Lemma spec_opt_iface : forall (b : bool) h s h1,
+    (if b then inl h else specialise_intrinsic h s) = inl h1 -> forall x, s_iface (hget h1 x) = s_iface (hget h x).
+Proof.
+  intros [|] h s h1 H x; [inversion H; subst; reflexivity | eapply specialise_iface; eauto].
+Qed.
+
+Lemma check_one_iface : forall h self other skip sw ow os h' oe,
+    check_one h self other skip sw ow os = (h', oe) -> forall x, s_iface (hget h' x) = s_iface (hget h x).
+Proof.
+  intros h self other skip sw ow os h' oe H x. unfold check_one in H.
+  repeat match type of H with
+         | (match ?x with _ => _ end) = _ => destruct x eqn:?
+         | (if ?x then _ else _) = _ => destruct x eqn:?
+         end;
+    inversion H; subst; clear H;
+    repeat match goal with
+           | E : (if _ then inl _ else specialise_intrinsic _ _) = inl _ |- _ => apply spec_opt_iface with (x := x) in E
+           end;
+    congruence.
+Qed.
+
+Lemma check_loop_iface : forall l h self other skip sw ow h' oe,
+    check_loop h self other skip sw ow l = (h', oe) -> forall x, s_iface (hget h' x) = s_iface (hget h x).
+Proof.
+  induction l as [|os l IH]; intros h self other skip sw ow h' oe H x; simpl in H.
+  - inversion H; subst. reflexivity.
+  - destruct (check_one h self other skip sw ow os) as [h1 [e|]] eqn:E.
+    + inversion H; subst. eapply check_one_iface; eauto.
+    + rewrite (IH _ _ _ _ _ _ _ _ H x). eapply check_one_iface; eauto.
+Qed.
+
+Lemma check_for_clashes_iface : forall h self anc other skip h' oe,
+    check_for_clashes h self anc other skip = (h', oe) -> forall x, s_iface (hget h' x) = s_iface (hget h x).
+Proof. intros. unfold check_for_clashes in H. eapply check_loop_iface; eauto. Qed.
+
 Lemma check_for_clashes_names : forall h self anc other skip h' oe,
     check_for_clashes h self anc other skip = (h', oe) -> same_names h h'.
 Proof. intros. unfold check_for_clashes in H. eapply check_loop_names; eauto. Qed.
@@ -93,7 +142,8 @@ Section MergeInv.
     mi_tags : t_tags (m_self m) = t_tags T0;
     mi_args : t_args (m_self m) = t_args T0;
     mi_frame : forall s, ~ In s (sids T0) -> ~ In s (sids O0) -> hget (m_heap m) s = hget h0 s;
-    mi_kind : same_kinds h0 (m_heap m)
+    mi_kind : same_kinds h0 (m_heap m);
+    mi_ifc : same_ifc h0 (m_heap m)
   }.
 
   (* the set of symbols of the receiving table only grows *)
@@ -106,10 +156,11 @@ Section MergeInv.
   (* a heap write that keeps names and kinds and touches a symbol of one of the two tables *)
   Lemma MI_hset : forall m s v,
       MI m -> s_name v = s_name (hget (m_heap m) s) -> s_kind v = s_kind (hget (m_heap m) s) ->
+      is_import v = is_import (hget (m_heap m) s) -> is_unres v = is_unres (hget (m_heap m) s) ->
       (In s (sids T0) \/ In s (sids O0)) ->
       MI (mkM (hset (m_heap m) s v) (m_self m) (m_other m)).
   Proof.
-    intros m s v HM Hn Hk Hin. destruct HM as [Htok Hlen Hsub Hsup Htags Hargs Hframe Hkind].
+    intros m s v HM Hn Hk Hi Hu Hin. destruct HM as [Htok Hlen Hsub Hsup Htags Hargs Hframe Hkind Hifc].
     constructor; simpl; auto.
     - eapply TOK_frame; [exact Htok | rewrite hset_length; lia |].
       intros s' _. apply (hset_field _ s_name). exact Hn.
@@ -117,6 +168,7 @@ Section MergeInv.
     - intros s' H1 H2. rewrite hget_hset_other; [apply Hframe; assumption|].
       intro E; subst s'. destruct Hin; contradiction.
     - intros s'. rewrite (hset_field _ s_kind) by exact Hk. apply Hkind.
+    - intros s'. rewrite (hset_field _ is_import) by exact Hi. rewrite (hset_field _ is_unres) by exact Hu. apply Hifc.
   Qed.
 
   (* renaming a symbol that is in the receiving table *)
@@ -125,7 +177,7 @@ Section MergeInv.
       MI (mkM h' T' (m_other m)) /\
       (forall x, In x (sids T') <-> In x (sids (m_self m))).
   Proof.
-    intros m s nm h' T' HM H. destruct HM as [Htok Hlen Hsub Hsup Htags Hargs Hframe Hkind].
+    intros m s nm h' T' HM H. destruct HM as [Htok Hlen Hsub Hsup Htags Hargs Hframe Hkind Hifc].
     pose proof (rename_symbol_TOK _ _ _ _ _ _ H Htok) as [Htok' [Hperm [Hlen' [Hin [Hs Hother]]]]].
     apply rename_symbol_spec in H as [_ [Hh [_ [Ht Ha]]]].
     assert (Hiff : forall x, In x (sids T') <-> In x (sids (m_self m))).
@@ -144,6 +196,9 @@ Section MergeInv.
     - intros x. destruct (Nat.eq_dec x s) as [E|E].
       + subst x. rewrite Hs. simpl. apply Hkind.
       + rewrite Hother by exact E. apply Hkind.
+    - intros x. destruct (Nat.eq_dec x s) as [E|E].
+      + subst x. rewrite Hs. apply Hifc.
+      + rewrite Hother by exact E. apply Hifc.
   Qed.
 
   (* renaming (in the other table) a symbol that is not in the receiving table *)
@@ -152,7 +207,7 @@ Section MergeInv.
       In s (sids O0) -> ~ In s (sids (m_self m)) ->
       MI (mkM h' (m_self m) O').
   Proof.
-    intros m s nm h' O' HM H HinO Hnot. destruct HM as [Htok Hlen Hsub Hsup Htags Hargs Hframe Hkind].
+    intros m s nm h' O' HM H HinO Hnot. destruct HM as [Htok Hlen Hsub Hsup Htags Hargs Hframe Hkind Hifc].
     apply rename_symbol_spec in H as [_ [Hh _]]. subst h'.
     constructor; simpl; auto.
     - eapply TOK_frame; [exact Htok | rewrite hset_length; lia |].
@@ -161,6 +216,7 @@ Section MergeInv.
     - intros x H1 H2. rewrite hget_hset_other; [apply Hframe; assumption|].
       intro E; subst x. contradiction.
     - intros x. rewrite (hset_field _ s_kind) by reflexivity. apply Hkind.
+    - intros x. rewrite (hset_field _ is_import) by reflexivity. rewrite (hset_field _ is_unres) by reflexivity. apply Hifc.
   Qed.
 
   Lemma MI_add : forall m s T',
@@ -168,7 +224,7 @@ Section MergeInv.
       In s (sids O0) -> ~ In s (sids (m_self m)) -> s < List.length h0 ->
       MI (mkM (m_heap m) T' (m_other m)) /\ sids T' = sids (m_self m) ++ [s].
   Proof.
-    intros m s T' HM H HinO Hnot Hlt. destruct HM as [Htok Hlen Hsub Hsup Htags Hargs Hframe Hkind].
+    intros m s T' HM H HinO Hnot Hlt. destruct HM as [Htok Hlen Hsub Hsup Htags Hargs Hframe Hkind Hifc].
     assert (Hlt' : s < List.length (m_heap m)) by lia.
     pose proof (tbl_add_TOK _ _ _ _ _ _ H Htok Hnot Hlt') as [Htok' Hs].
     apply tbl_add_spec in H as [_ [_ [Ha Ht]]].
@@ -221,8 +277,11 @@ Section MergeInv.
   Lemma is_container_stable : forall m s, MI m -> is_container (hget (m_heap m) s) = is_container (hget h0 s).
   Proof. intros m s HM. unfold is_container. rewrite (mi_kind _ HM). reflexivity. Qed.
 
+  Lemma import_not_unres : forall y, is_import y = true -> is_unres y = false.
+  Proof. intros y H. unfold is_import, is_unres in *. destruct (s_iface y); congruence. Qed.
+
   Lemma fix_imports_MI : forall l m csym m' oe,
-      MI m -> (forall s, In s l -> In s (sids O0)) ->
+      MI m -> (forall s, In s l -> In s (sids O0) /\ is_import (hget h0 s) = true) ->
       fix_imports m anc csym l = (m', oe) ->
       MI m' /\ m_other m' = m_other m /\ (forall x, In x (sids (m_self m')) <-> In x (sids (m_self m))).
   Proof.
@@ -250,12 +309,17 @@ Section MergeInv.
       + destruct (Hstep _ _ eq_refl) as [HM1 [Ho1 Hiff1]].
         destruct (lookup (m_self m1) anc (s_name (hget (m_heap m1) csym))) as [c'|];
           [|inversion H; subst; split; [exact HM1 | split; [exact Ho1 | exact Hiff1]]].
+        destruct (Hl isym (or_introl eq_refl)) as [HiO Hii].
+        assert (Hii1 : is_import (hget (m_heap m1) isym) = true).
+        { destruct (mi_ifc _ HM1 isym) as [E _]. rewrite E. exact Hii. }
         match type of H with
         | fix_imports ?mm _ _ _ = _ =>
             assert (HM2 : MI mm);
               [|destruct (IH mm csym m' oe HM2 (fun s Hs => Hl s (or_intror Hs)) H) as [HM' [Ho' Hiff']]]
         end.
-        * apply (MI_hset m1 isym); [exact HM1 | reflexivity | reflexivity | right; apply Hl; left; reflexivity].
+        * apply (MI_hset m1 isym); [exact HM1 | reflexivity | reflexivity | | | right; exact HiO].
+          -- rewrite Hii1. reflexivity.
+          -- rewrite (import_not_unres _ Hii1). reflexivity.
         * split; [exact HM'|]. split; [simpl in Ho'; congruence|].
           intros x. rewrite Hiff'. simpl. apply Hiff1.
   Qed.
@@ -307,7 +371,7 @@ Section MergeInv.
         + assert (Hscs : In scs (sids (m_self m))) by (apply find_key_In in Ef; apply in_sids; eauto).
           destruct (s_wild (hget (m_heap m) csym)); inversion H1; subst.
           * split; [|split; [simpl; exact HO | split; [intros x Hx; exact Hx | intros x Hx; left; exact Hx]]].
-            apply MI_hset; [exact HM | reflexivity | reflexivity | apply (mi_sub _ HM); exact Hscs].
+            apply MI_hset; [exact HM | reflexivity | reflexivity | reflexivity | reflexivity | apply (mi_sub _ HM); exact Hscs].
           * split; [exact HM | split; [exact HO | split; [apply grows_refl | intros x Hx; left; exact Hx]]].
       - destruct (madd_self_MI _ _ _ _ HM H1 HcO Hcnot (O0_lt _ HcO)) as [HM1 [Ho1 [_ [Hg [Hs Hsame]]]]].
         split; [exact HM1|]. split; [congruence|]. split; [exact Hg|].
@@ -332,8 +396,12 @@ Section MergeInv.
         [|inversion H; subst; split; [exact HM1 | split; [exact Ho1 | split; [exact Hg1 | discriminate]]]].
       destruct (negb (Nat.eqb c0 csym));
         [inversion H; subst; split; [exact HM1 | split; [exact Ho1 | split; [exact Hg1 | discriminate]]]|].
-      assert (Hl : forall s, In s (imported_from (m_heap m1) (m_other m1) csym) -> In s (sids O0)).
-      { intros s Hs. apply imported_from_incl in Hs. rewrite Ho1 in Hs. exact Hs. }
+      assert (Hl : forall s, In s (imported_from (m_heap m1) (m_other m1) csym) ->
+                             In s (sids O0) /\ is_import (hget h0 s) = true).
+      { intros s Hs. split; [apply imported_from_incl in Hs; rewrite Ho1 in Hs; exact Hs|].
+        unfold imported_from in Hs. apply filter_In in Hs as [_ Hs].
+        destruct (mi_ifc _ HM1 s) as [E _]. rewrite <- E. unfold is_import.
+        destruct (s_iface (hget (m_heap m1) s)); congruence. }
       destruct (fix_imports_MI _ _ _ _ _ HM1 Hl H) as [HM' [Ho' Hiff']].
       split; [exact HM'|]. split; [congruence|]. split.
       + intros x Hx. apply Hiff'. apply Hg1. exact Hx.
@@ -429,10 +497,6 @@ Section MergeInv.
     intros _. right; left. unfold is_import. rewrite Ei. reflexivity.
   Qed.
 
-  (* interfaces: import-ness and unresolved-ness never change during the two passes *)
-  Definition same_ifclass (h h' : heap) : Prop :=
-    forall s, is_import (hget h' s) = is_import (hget h s) /\ is_unres (hget h' s) = is_unres (hget h s).
-
   Lemma add_one_MI : forall m skip os l m' oe,
       MI m -> pend_add m (os :: l) -> NoDup (os :: l) -> In os (sids O0) ->
       add_one m anc skip os = (m', oe) ->
@@ -470,4 +534,162 @@ Section MergeInv.
       + intros _. apply Hpend. exact Hnew.
       + intros E. destruct (Hres E) as [R|[R|R]]; [right; right; left; exact R | right; right; right; left; exact R | right; right; right; right; exact R].
   Qed.
+  Lemma add_loop_MI : forall l m skip m' oe,
+      MI m -> pend_add m l -> NoDup l -> (forall s, In s l -> In s (sids O0)) ->
+      add_loop m anc skip l = (m', oe) ->
+      MI m' /\ grows m m' /\
+      (oe = None -> forall s, In s l ->
+                    In s skip \/ is_container (hget h0 s) = true \/ In s (sids (m_self m'))
+                    \/ is_import (hget h0 s) = true \/ is_unres (hget h0 s) = true).
+  Proof.
+    induction l as [|os l IH]; intros m skip m' oe HM Hp Hnd Hl H; simpl in H.
+    - inversion H; subst. split; [exact HM | split; [apply grows_refl | intros _ s []]].
+    - destruct (add_one m anc skip os) as [m1 [e1|]] eqn:E1.
+      + inversion H; subst.
+        destruct (add_one_MI _ _ _ _ _ _ HM Hp Hnd (Hl os (or_introl eq_refl)) E1) as [HM1 [Hg1 _]].
+        split; [exact HM1 | split; [exact Hg1 | discriminate]].
+      + destruct (add_one_MI _ _ _ _ _ _ HM Hp Hnd (Hl os (or_introl eq_refl)) E1) as [HM1 [Hg1 [Hp1 Hr1]]].
+        inversion Hnd; subst.
+        destruct (IH m1 skip m' oe HM1 (Hp1 eq_refl) ltac:(assumption) (fun s Hs => Hl s (or_intror Hs)) H)
+          as [HM' [Hg' Hr']].
+        split; [exact HM' | split; [eapply grows_trans; eauto|]].
+        intros E s [Hs|Hs].
+        * subst s. destruct (mi_ifc _ HM os) as [Ei Eu].
+          destruct (Hr1 eq_refl) as [R|[R|[R|[R|R]]]].
+          -- left; exact R.
+          -- right; left; exact R.
+          -- right; right; left. apply Hg'. exact R.
+          -- right; right; right; left. rewrite <- Ei. exact R.
+          -- right; right; right; right. rewrite <- Eu. exact R.
+        * apply Hr'; assumption.
+  Qed.
 End MergeInv.
+
+(* ------------------------------------------------------------ whole merge *)
+Lemma specialise_cont : forall h s h', specialise_intrinsic h s = inl h' ->
+                                       forall x, is_container (hget h' x) = is_container (hget h x).
+Proof.
+  intros h s h' H. unfold specialise_intrinsic in H.
+  destruct (s_kind (hget h s)) eqn:E; inversion H; subst; apply hset_field;
+    unfold is_container; simpl; rewrite E; reflexivity.
+Qed.
+
+Lemma spec_opt_cont : forall (b : bool) h s h1,
+    (if b then inl h else specialise_intrinsic h s) = inl h1 ->
+    forall x, is_container (hget h1 x) = is_container (hget h x).
+Proof.
+  intros [|] h s h1 H x; [inversion H; subst; reflexivity | eapply specialise_cont; eauto].
+Qed.
+
+Lemma check_one_cont : forall h self other skip sw ow os h' oe,
+    check_one h self other skip sw ow os = (h', oe) ->
+    forall x, is_container (hget h' x) = is_container (hget h x).
+Proof.
+  intros h self other skip sw ow os h' oe H x. unfold check_one in H.
+  repeat match type of H with
+         | (match ?x with _ => _ end) = _ => destruct x eqn:?
+         | (if ?x then _ else _) = _ => destruct x eqn:?
+         end;
+    inversion H; subst; clear H;
+    repeat match goal with
+           | E : (if _ then inl _ else specialise_intrinsic _ _) = inl _ |- _ => apply spec_opt_cont with (x := x) in E
+           end;
+    congruence.
+Qed.
+
+Lemma check_loop_cont : forall l h self other skip sw ow h' oe,
+    check_loop h self other skip sw ow l = (h', oe) ->
+    forall x, is_container (hget h' x) = is_container (hget h x).
+Proof.
+  induction l as [|os l IH]; intros h self other skip sw ow h' oe H x; simpl in H.
+  - inversion H; subst. reflexivity.
+  - destruct (check_one h self other skip sw ow os) as [h1 [e|]] eqn:E.
+    + inversion H; subst. eapply check_one_cont; eauto.
+    + rewrite (IH _ _ _ _ _ _ _ _ H x). eapply check_one_cont; eauto.
+Qed.
+
+(* the heap after check_for_clashes: same names, interfaces and container-ness; classes may
+   have been specialised *)
+Definition checked (h h1 : heap) : Prop :=
+  same_names h h1 /\ (forall x, s_iface (hget h1 x) = s_iface (hget h x)) /\
+  (forall x, is_container (hget h1 x) = is_container (hget h x)).
+
+Lemma check_for_clashes_checked : forall h self anc other skip h1 oe,
+    check_for_clashes h self anc other skip = (h1, oe) -> checked h h1.
+Proof.
+  intros h self anc other skip h1 oe H. split; [|split].
+  - eapply check_for_clashes_names; eauto.
+  - eapply check_for_clashes_iface; eauto.
+  - unfold check_for_clashes in H. eapply check_loop_cont; eauto.
+Qed.
+
+Lemma MI_init : forall h1 T Ot, TOK h1 T -> MI h1 T Ot (mkM h1 T Ot).
+Proof.
+  intros h1 T Ot HT. constructor; simpl; auto.
+  - intros s; reflexivity.
+  - intros s; split; reflexivity.
+Qed.
+
+Definition merge_post (h : heap) (T Ot : table) (skip : list sid) (m : mst) (ph : mphase)
+           (oe : option err) : Prop :=
+  exists h1, checked h h1 /\
+    match ph with
+    | MRejected => m = mkM h1 T Ot /\ oe <> None
+    | MPartial => MI h1 T Ot m /\ oe <> None
+    | MDone => MI h1 T Ot m /\ oe = None /\
+               forall s, In s (sids Ot) -> ~ In s skip -> is_container (hget h s) = false ->
+                         is_import (hget h s) = false -> is_unres (hget h s) = false ->
+                         In s (sids (m_self m))
+    end.
+
+Theorem merge_spec : forall h T anc Ot skip m ph oe,
+    TOK h T -> TOK h Ot -> (forall s, In s (sids T) -> ~ In s (sids Ot)) ->
+    merge h T anc Ot skip = (m, ph, oe) -> merge_post h T Ot skip m ph oe.
+Proof.
+  intros h T anc Ot skip m ph oe HT HO Hdisj H. unfold merge in H.
+  destruct (check_for_clashes h T anc Ot skip) as [h1 [e|]] eqn:Ec.
+  { inversion H; subst. exists h1. split; [eapply check_for_clashes_checked; eauto|].
+    split; [reflexivity | discriminate]. }
+  pose proof (check_for_clashes_checked _ _ _ _ _ _ _ Ec) as Hck.
+  destruct Hck as [[Hlen Hnm] [Hif Hco]].
+  assert (HT1 : TOK h1 T) by (eapply TOK_frame; [exact HT | lia | intros s _; apply Hnm]).
+  assert (HO1 : TOK h1 Ot) by (eapply TOK_frame; [exact HO | lia | intros s _; apply Hnm]).
+  assert (Hlt : forall s, In s (sids Ot) -> s < List.length h1).
+  { intros s Hs. apply in_sids in Hs as [k Hk]. destruct HO1 as [_ [_ Hn]]. apply (Hn _ _ Hk). }
+  pose proof (MI_init h1 T Ot HT1) as HM0.
+  assert (Hpend0 : pend h1 Ot (mkM h1 T Ot) (filter (fun s => is_container (hget h1 s)) (sids Ot))).
+  { split; simpl.
+    - intros s Hs Hc. apply filter_In in Hs as [Hs _]. apply (Hdisj _ Hc Hs).
+    - intros s Hs _ Hc. apply (Hdisj _ Hc Hs). }
+  exists h1. split; [split; [split; assumption | split; assumption]|].
+  unfold add_containers in H. simpl in H.
+  destruct (container_loop (mkM h1 T Ot) anc (filter (fun s => is_container (hget h1 s)) (sids Ot)))
+    as [m1 [e1|]] eqn:E1.
+  - inversion H; subst.
+    destruct (container_loop_MI h1 T Ot anc Hlt _ _ _ _ HM0 eq_refl Hpend0
+                (NoDup_filter _ (proj1 (proj2 HO1)))
+                (fun s Hs => let (a, b) := proj1 (filter_In _ _ _) Hs in conj a b) E1) as [HM1 _].
+    split; [exact HM1 | discriminate].
+  - destruct (container_loop_MI h1 T Ot anc Hlt _ _ _ _ HM0 eq_refl Hpend0
+                (NoDup_filter _ (proj1 (proj2 HO1)))
+                (fun s Hs => let (a, b) := proj1 (filter_In _ _ _) Hs in conj a b) E1)
+      as [HM1 [Ho1 [Hg1 Hp1]]].
+    unfold add_symbols in H. rewrite Ho1 in H. clear Ho1.
+    assert (Hpa : pend_add h1 m1 (sids Ot)).
+    { intros s Hs Hk. apply (proj2 (Hp1 eq_refl)); assumption. }
+    destruct (add_loop m1 anc skip (sids Ot)) as [m2 [e2|]] eqn:E2.
+    + inversion H; subst.
+      destruct (add_loop_MI h1 T Ot anc Hlt _ _ _ _ _ HM1 Hpa (proj1 (proj2 HO1)) (fun s Hs => Hs) E2) as [HM2 _].
+      split; [exact HM2 | discriminate].
+    + inversion H; subst.
+      destruct (add_loop_MI h1 T Ot anc Hlt _ _ _ _ _ HM1 Hpa (proj1 (proj2 HO1)) (fun s Hs => Hs) E2)
+        as [HM2 [Hg2 Hr2]].
+      split; [exact HM2|]. split; [reflexivity|].
+      intros s Hs Hsk Hc Hi Hu.
+      destruct (Hr2 eq_refl s Hs) as [R|[R|[R|[R|R]]]].
+      * contradiction.
+      * rewrite Hco in R. congruence.
+      * exact R.
+      * unfold is_import in *. rewrite Hif in R. congruence.
+      * unfold is_unres in *. rewrite Hif in R. congruence.
+Qed.
